@@ -73,7 +73,7 @@ def run(ctx: Ctx) -> int:
     LCD = importlib.import_module("Reduino.Displays.LCD").LCD
     rng = ctx.rng
     cases = []
-    for _ in range(ctx.n(50, 500)):
+    for _ in range(ctx.n(150, 500)):
         cols, rows = rng.choice([1, 2, 4, 8, 12, 16, 20]), rng.randint(1, 4)
         anims = gen_anims(rng, cols, rows)
         sleep_ms = rng.choice([0, 30, 100, 250])
@@ -152,7 +152,7 @@ def run(ctx: Ctx) -> int:
             ctx.fail("anim:loop-started-never-ticked", "an animation started inside the while True: body is never ticked", {"script": src})
     # ---------- host side -----------------------------------------------------------------------------------------
     hcases = []
-    for _ in range(ctx.n(150, 1500)):
+    for _ in range(ctx.n(400, 1500)):
         cols, rows = rng.choice([1, 2, 4, 8, 16, 20, 40]), rng.randint(1, 4)
         anims = gen_anims(rng, cols, rows)
         t, times = 0, []
